@@ -10,6 +10,23 @@ Open Scope N_scope.
 Lemma strip_log_clean l : Forall clean_prompt (strip_log l).
 Proof. unfold strip_log. apply Forall_forall. intros p H. apply in_map_iff in H as (q & <- & _). reflexivity. Qed.
 
+Lemma cas_clear_with_clean atoms l : atoms_clear_all atoms = true -> Forall clean_prompt (cas_clear_with atoms l).
+Proof.
+  intro H. unfold cas_clear_with. apply Forall_forall. intros q Hq. apply in_map_iff in Hq as (p & <- & _).
+  destruct (cas_takes_with atoms p) eqn:E; [reflexivity|].
+  unfold cas_takes_with in E. unfold atoms_clear_all in H.
+  induction atoms as [|a atoms IH]; [discriminate|].
+  simpl in E, H. apply andb_true_iff in H as [Ha H].
+  destruct a; [|discriminate]. simpl in E.
+  destruct (p_messages p) eqn:Em; [exact Em|]. simpl in E. apply IH; assumption.
+Qed.
+
+Lemma cas_clear_keeps_clean atoms l : Forall clean_prompt l -> Forall clean_prompt (cas_clear_with atoms l).
+Proof.
+  intro H. unfold cas_clear_with. apply Forall_forall. intros q Hq. apply in_map_iff in Hq as (p & <- & Hp).
+  destruct (cas_takes_with atoms p); [reflexivity|]. rewrite Forall_forall in H. apply H. exact Hp.
+Qed.
+
 Lemma run_action_clears isr e f a l l' :
   clears f a = true -> run_action isr e f a l = Ok l' -> Forall clean_prompt l'.
 Proof.
@@ -18,7 +35,7 @@ Proof.
   - apply andb_true_iff in Hc as [Hs Hf]. unfold run_action in H.
     destruct (redact_log isr l) as [l1|]; [|discriminate].
     destruct (e_cas_ok e).
-    + rewrite Hs in H. inversion H. apply strip_log_clean.
+    + inversion H. apply cas_clear_with_clean. exact Hs.
     + destruct f; try discriminate. simpl in H. inversion H. apply strip_log_clean.
 Qed.
 
@@ -64,7 +81,7 @@ Proof.
     unfold run_action in Ha. destruct (redact_log isr l) as [l1|] eqn:E1; [|discriminate].
     pose proof (redact_log_clean isr l l1 Hc E1) as Hc1.
     destruct (e_cas_ok e).
-    - destruct cas_success_clears; inversion Ha; subst; [apply strip_log_clean|exact Hc1].
+    - inversion Ha; subst. apply cas_clear_keeps_clean. exact Hc1.
     - eapply run_simple_keeps_clean; eauto. }
   unfold filter_log in H. destruct m; [destruct (e_logged_in e)| |]; eapply G; eauto.
 Qed.
@@ -131,7 +148,7 @@ Proof. vm_compute. reflexivity. Qed.
 
 (* ---------- an unfiltered writer fed from the working log ---------- *)
 
-Definition wit_dirty : note := [mkPrompt [112] [116] [MUser [104; 105]]].
+Definition wit_dirty : note := [mkPrompt [112] [116] 1 [MUser [104; 105]]].
 Definition wit_src : source := mkSource wit_dirty [].
 
 Lemma unfiltered_worklog_refuted isr w :
@@ -141,6 +158,23 @@ Proof.
   intros Hf Hs. split; [constructor|]. intros m e H. unfold write in H. rewrite Hf in H.
   unfold built_log in H. rewrite Hs in H. simpl in H. inversion H as [|? ? H1 _]; subst.
   inversion H1 as [|? ? H2 _]; subst. discriminate.
+Qed.
+
+(* ---------- the CAS route ---------- *)
+
+Lemma cas_clears_all_now : cas_clears_all = true.
+Proof. reflexivity. Qed.
+
+(* a session that left no accepted line but has a transcript *)
+Definition wit_zero : prompt := mkPrompt [112] [116] 0 [MUser [104; 105]].
+
+(* an enqueue that only takes prompts with accepted lines leaves the transcript of such a session in place *)
+Lemma partial_cas_refuted :
+  atoms_clear_all [CHasMessages; CAcceptedPositive] = false /\
+  cas_clear_with [CHasMessages; CAcceptedPositive] [wit_zero] = [wit_zero] /\
+  ~ Forall clean_prompt (cas_clear_with [CHasMessages; CAcceptedPositive] [wit_zero]).
+Proof.
+  split; [reflexivity|]. split; [reflexivity|]. intro H. inversion H as [|? ? H1 _]. discriminate.
 Qed.
 
 (* ---------- notes mode: what is written is the redacted log ---------- *)
